@@ -8,9 +8,10 @@
  *   kw  <hex>                 pg_is_reserved_word
  *   arr <hex>                 pg_parse_array(text, NULL)
  *
- * Every destination is a malloc block of exactly dstlen bytes filled with 0xAA, every input
- * an exact-size malloc copy (len + 1 bytes incl. the NUL), so AddressSanitizer aborts on the
- * first byte read or written outside.  Arguments containing a NUL byte are `bad-op`.
+ * Every destination is exactly dstlen bytes filled with 0xAA, flush against a PROT_NONE guard
+ * page at its end (also for dstlen 0) and with a checked canary in front; every input is an
+ * exact-size malloc copy (len + 1 bytes incl. the NUL) so that AddressSanitizer aborts on the
+ * first byte read outside.  Arguments containing a NUL byte are `bad-op`.
  *
  * Output: quote ops `<ret> [<output bytes up to the NUL> | unterminated] ## <whole dst block>`
  *         kw `0|1`; arr `null` or `list <n> (N | s:<hex>)…`
@@ -48,12 +49,46 @@ static bool parse_len(const char *w, long *out)
 
 typedef bool (*quote_fn)(char *, const char *, int);
 
+/* Destination blocks: one mapping [PROT_NONE page][data][PROT_NONE page]; the destination of
+ * a call is the LAST dstlen bytes of the data area, i.e. dst + dstlen is the first byte of the
+ * guard page, for every dstlen including 0 (ASan's malloc(0) hands out an addressable byte, so a
+ * one-byte overrun of a zero-sized destination was invisible).  The 64 bytes in front of dst
+ * carry a canary that is checked after the call (`UNDERRUN`).  A store at or past dst[dstlen]
+ * faults and ends the harness: vf turns that into a CRASH line. */
+#include <sys/mman.h>
+#include <unistd.h>
+#define DST_MAX (1 << 20)
+#define CANARY 64
+static uint8_t *dst_area_end;
+
+static void dst_area_init(void)
+{
+	long pg = sysconf(_SC_PAGESIZE);
+	size_t data = ((DST_MAX + CANARY + pg - 1) / pg) * pg;
+	uint8_t *m = mmap(NULL, data + 2 * pg, PROT_READ | PROT_WRITE, MAP_PRIVATE | MAP_ANONYMOUS, -1, 0);
+	if (m == MAP_FAILED) { perror("mmap"); exit(3); }
+	if (mprotect(m, pg, PROT_NONE) || mprotect(m + pg + data, pg, PROT_NONE)) { perror("mprotect"); exit(3); }
+	dst_area_end = m + pg + data;
+}
+
 static void do_quote(quote_fn fn, const uint8_t *src, long dstlen)
 {
-	uint8_t *dst = malloc(dstlen);
+	uint8_t *dst;
 	bool ok;
+	int i, under = 0;
+	if (!dst_area_end)
+		dst_area_init();
+	if (dstlen > DST_MAX) { printf("bad-op\n"); return; }
+	dst = dst_area_end - dstlen;
+	memset(dst - CANARY, 0x5A, CANARY);
 	memset(dst, 0xAA, dstlen);
 	ok = fn((char *)dst, (const char *)src, (int)dstlen);
+	for (i = 1; i <= CANARY; i++)
+		if (dst[-i] != 0x5A)
+			under = 1;
+	if (under) {
+		printf("UNDERRUN ");
+	}
 	if (ok) {
 		uint8_t *z = dstlen ? memchr(dst, 0, dstlen) : NULL;
 		if (z) {
@@ -68,7 +103,6 @@ static void do_quote(quote_fn fn, const uint8_t *src, long dstlen)
 	printf(" ## ");
 	hc_puthex(dst, dstlen);
 	printf("\n");
-	free(dst);
 }
 
 static void do_arr(const uint8_t *txt)
